@@ -1,0 +1,121 @@
+//! Verification hooks (cargo feature `verif_hooks`, off by default).
+//!
+//! Everything in here is inert unless a handler / a virtual time is installed:
+//! the clock falls through to `chrono::Local::now()`, points return `Ok(())`.
+#![allow(missing_docs)]
+#![allow(clippy::missing_errors_doc, clippy::missing_panics_doc)]
+
+use chrono::{DateTime, TimeZone};
+use std::{
+    path::Path,
+    sync::{
+        atomic::{AtomicBool, AtomicI64, Ordering},
+        Arc, RwLock,
+    },
+};
+
+const UNSET: i64 = i64::MIN;
+static VNOW_NS: AtomicI64 = AtomicI64::new(UNSET);
+static VTICK_NS: AtomicI64 = AtomicI64::new(0);
+
+/// Sets (or with `None` removes) the virtual "now", in nanoseconds since the epoch.
+pub fn set_virtual_now_ns(ns: Option<i64>) {
+    VNOW_NS.store(ns.unwrap_or(UNSET), Ordering::SeqCst);
+}
+/// Every read of the virtual clock advances it by this many nanoseconds.
+pub fn set_auto_tick_ns(ns: i64) {
+    VTICK_NS.store(ns, Ordering::SeqCst);
+}
+/// Returns the virtual "now", if one is set.
+#[must_use]
+pub fn virtual_now_ns() -> Option<i64> {
+    match VNOW_NS.load(Ordering::SeqCst) {
+        UNSET => None,
+        ns => Some(ns),
+    }
+}
+
+/// Shim that shadows `chrono::Local` for `Local::now()` calls inside function bodies.
+pub struct Local;
+impl Local {
+    #[must_use]
+    pub fn now() -> DateTime<chrono::Local> {
+        let tick = VTICK_NS.load(Ordering::SeqCst);
+        let ns = if tick == 0 {
+            VNOW_NS.load(Ordering::SeqCst)
+        } else {
+            let mut cur = VNOW_NS.load(Ordering::SeqCst);
+            loop {
+                if cur == UNSET {
+                    break cur;
+                }
+                match VNOW_NS.compare_exchange(cur, cur + tick, Ordering::SeqCst, Ordering::SeqCst)
+                {
+                    Ok(prev) => break prev,
+                    Err(actual) => cur = actual,
+                }
+            }
+        };
+        if ns == UNSET {
+            chrono::Local::now()
+        } else {
+            chrono::Local.timestamp_nanos(ns)
+        }
+    }
+}
+
+pub type PointHandler =
+    dyn Fn(&str, Option<&Path>, Option<&Path>) -> std::io::Result<()> + Send + Sync;
+pub type CreationLookup = dyn Fn(&Path) -> Option<DateTime<chrono::Local>> + Send + Sync;
+
+static POINT_ACTIVE: AtomicBool = AtomicBool::new(false);
+static POINT_HANDLER: RwLock<Option<Arc<PointHandler>>> = RwLock::new(None);
+static CREATION_ACTIVE: AtomicBool = AtomicBool::new(false);
+static CREATION_LOOKUP: RwLock<Option<Arc<CreationLookup>>> = RwLock::new(None);
+
+/// Installs (or removes) the handler that is called at every point.
+pub fn set_point_handler(handler: Option<Arc<PointHandler>>) {
+    let mut guard = POINT_HANDLER.write().unwrap_or_else(std::sync::PoisonError::into_inner);
+    POINT_ACTIVE.store(handler.is_some(), Ordering::SeqCst);
+    *guard = handler;
+}
+/// Installs (or removes) the lookup that replaces the file-metadata creation time.
+pub fn set_creation_lookup(lookup: Option<Arc<CreationLookup>>) {
+    let mut guard = CREATION_LOOKUP.write().unwrap_or_else(std::sync::PoisonError::into_inner);
+    CREATION_ACTIVE.store(lookup.is_some(), Ordering::SeqCst);
+    *guard = lookup;
+}
+
+/// A named point immediately before a file-system effect (or between two critical sections).
+/// The handler may record, delay, return an injected error, or abort the process.
+pub fn point(name: &str, path: Option<&Path>, path2: Option<&Path>) -> std::io::Result<()> {
+    if !POINT_ACTIVE.load(Ordering::SeqCst) {
+        return Ok(());
+    }
+    let handler = POINT_HANDLER
+        .read()
+        .unwrap_or_else(std::sync::PoisonError::into_inner)
+        .clone();
+    match handler {
+        Some(h) => h(name, path, path2),
+        None => Ok(()),
+    }
+}
+
+/// A named schedule point (no result).
+pub fn sched(name: &str) {
+    point(name, None, None).ok();
+}
+
+/// Creation time of the given file according to the installed lookup, if any.
+#[must_use]
+pub fn creation_time(path: &Path) -> Option<DateTime<chrono::Local>> {
+    if !CREATION_ACTIVE.load(Ordering::SeqCst) {
+        return None;
+    }
+    let lookup = CREATION_LOOKUP
+        .read()
+        .unwrap_or_else(std::sync::PoisonError::into_inner)
+        .clone();
+    lookup.and_then(|l| l(path))
+}
